@@ -1,14 +1,25 @@
 /-
   C36 — scalar functions compute their documented values (PARTIAL by design: only functions with an exact, finitely
-  specifiable meaning are modelled; see checks/reg/C36.py for the modelled / unmodelled lists).
-  Property theorems only; definitions are in IQE/Spec/Fn*.lean (the documented Trino meaning written out), helper
-  lemmas in IQE/Lemmas/Fn*.lean.  The engine's deviations from these definitions are the known findings C36-F1..F24
-  (IQE/Engine/FnDev.lean mirrors them; each has a kernel-checked witness `example` at the end of this file).
+  specifiable meaning are modelled; checks/reg/C36.py lists the modelled and the unmodelled functions).
+  Property theorems only.  Definitions: IQE/Spec/Fn*.lean — the documented (Trino) meaning written out, with the few
+  variants the project's own tests pin (lower-case to_hex, percent-encoding url_encode, NULL for undecodable input).
+  Helper lemmas: IQE/Lemmas/Fn*.lean.  The engine's deviations from these definitions are the known findings C36-F*
+  (IQE/Engine/FnDev.lean mirrors them); the `example`s at the end are kernel-checked witnesses that the documented value
+  on each finding's witness input is not what the engine returns.
 -/
 import IQE.Lemmas.FnMath
 import IQE.Lemmas.FnStr
+import IQE.Lemmas.FnStr2
+import IQE.Lemmas.FnLev
+import IQE.Lemmas.FnMisc
 import IQE.Lemmas.FnEnc
+import IQE.Lemmas.FnCodec
+import IQE.Lemmas.FnEndian
+import IQE.Lemmas.FnUrl
+import IQE.Lemmas.FnUtf8
+import IQE.Lemmas.FnBase
 import IQE.Lemmas.FnCond
+import IQE.Lemmas.FnDate2
 import IQE.Engine.FnDev
 namespace IQE.Props.C36
 open IQE.Spec.Fn
@@ -173,11 +184,13 @@ theorem C36_coalesce_first (pre : List V) (v : V) (post : List V) (hp : pre.all 
 theorem C36_nullif_null (a b : V) :
     (a.isNull = false → nullifV a a = .null) ∧ (a ≠ b → nullifV a b = a) ∧ nullifV a .null = a ∧ nullifV .null b = .null :=
   ⟨nullif_eq a, nullif_ne a b, nullif_null_right a, nullif_null_left b⟩
-/-- `if(NULL, t, f) = f`; a searched CASE skips NULL conditions and yields NULL without a matching arm or ELSE. -/
+/-- `if(NULL, t, f) = f`; a searched CASE skips NULL conditions and yields NULL without a matching arm or ELSE;
+    in a simple CASE a NULL operand or WHEN value never matches. -/
 theorem C36_if_null (t f : V) : ifV .null t f = some f := rfl
-theorem C36_case_null (c v v2 : V) (h : c = .null ∨ c = .bool false) :
-    caseSearched [c, v] = some .null ∧ caseSearched [.null, v, .bool true, v2] = some v2 :=
-  ⟨case_no_match_no_else c v h, rfl⟩
+theorem C36_case_null (c v v2 e : V) (h : c = .null ∨ c = .bool false) :
+    caseSearched [c, v] = some .null ∧ caseSearched [.null, v, .bool true, v2] = some v2 ∧
+    caseSimple [.null, .null, v, e] = some e ∧ caseSimple [v2, .null, v, e] = some e :=
+  ⟨case_no_match_no_else c v h, rfl, rfl, by cases v2 <;> rfl⟩
 /-- `concat_ws`: a NULL separator gives NULL; NULL arguments are skipped. -/
 theorem C36_concat_ws_null (rest : List V) : call "concat_ws" (.null :: rest) = some (.val .null) := by simp [call]
 theorem C36_concat_ws_skips_null (sep a b : List Char) :
@@ -195,6 +208,34 @@ theorem C36_mod_sign_rules (n m : Int) :
     (modI n m = none ↔ m = 0) ∧
     (∀ r, modI n m = some r → n = m * Int.tdiv n m + r ∧ r.natAbs < m.natAbs ∧ (0 ≤ n → 0 ≤ r) ∧ (n ≤ 0 → r ≤ 0)) :=
   ⟨by unfold modI; split <;> simp_all, fun r h => mod_spec n m r h⟩
+/-- `greatest` / `least` of non-NULL bigints: an element of the list that bounds every element. -/
+theorem C36_greatest_least (x : Int) (xs : List Int) :
+    (∃ g, greatestI (x :: xs) = some g ∧ g ∈ x :: xs ∧ ∀ y ∈ x :: xs, y ≤ g) ∧
+    (∃ l, leastI (x :: xs) = some l ∧ l ∈ x :: xs ∧ ∀ y ∈ x :: xs, l ≤ y) := by
+  obtain ⟨a1, a2, a3⟩ := foldl_max_ge xs x
+  obtain ⟨b1, b2, b3⟩ := foldl_min_le xs x
+  refine ⟨⟨_, rfl, ?_, ?_⟩, ⟨_, rfl, ?_, ?_⟩⟩
+  · rcases a3 with h | h
+    · rw [h]; simp
+    · simp [h]
+  · intro y hy; simp only [List.mem_cons] at hy; rcases hy with hy | hy
+    · subst hy; exact a1
+    · exact a2 y hy
+  · rcases b3 with h | h
+    · rw [h]; simp
+    · simp [h]
+  · intro y hy; simp only [List.mem_cons] at hy; rcases hy with hy | hy
+    · subst hy; exact b1
+    · exact b2 y hy
+/-- `width_bucket` (ascending bounds, n > 0): 0 below, n+1 at or above the upper bound, otherwise the bucket b ∈ 1..n with
+    (b−1)·(hi−lo) ≤ n·(x−lo) < b·(hi−lo), i.e. x lies in the b-th of n equal-width buckets — exactly, no rounding. -/
+theorem C36_width_bucket (x lo hi n b : Int) (hlt : lo < hi) (hn : 0 < n) (h : widthBucket x lo hi n = some b) :
+    (x < lo → b = 0) ∧ (hi ≤ x → b = n + 1) ∧
+    (lo ≤ x → x < hi → 1 ≤ b ∧ b ≤ n ∧ (b - 1) * (hi - lo) ≤ n * (x - lo) ∧ n * (x - lo) < b * (hi - lo)) :=
+  widthBucket_range x lo hi n b hlt hn h
+/-- `from_base(to_base(x, r), r) = x` for every BIGINT x and every radix 2..36. -/
+theorem C36_from_base_to_base (x r : Int) (hr : radixOk r = true) (hx : inI64 x = true) (s : List Char) (h : toBase x r = some s) :
+    fromBase s r = some x := fromBase_toBase x r hr hx s h
 
 /-! ## bitwise (64-bit two's complement) -/
 theorem C36_bitwise_not_involution (x : Int) (h : inI64 x = true) : bitNot (bitNot x) = x := not_not x h
@@ -203,7 +244,7 @@ theorem C36_bitwise_de_morgan (x y : Int) :
     bitNot (bitAnd x y) = bitOr (bitNot x) (bitNot y) ∧ bitNot (bitOr x y) = bitAnd (bitNot x) (bitNot y) :=
   ⟨demorgan_and x y, demorgan_or x y⟩
 theorem C36_bitwise_xor_self (x : Int) : bitXor x x = 0 := xor_self x
-/-- inclusion–exclusion for the population count, and its range. -/
+/-- inclusion–exclusion for the population count, its range, and the count of the complement. -/
 theorem C36_bit_count_incl_excl (x y : Int) : bitCount (bitAnd x y) + bitCount (bitOr x y) = bitCount x + bitCount y :=
   bitcount_incl_excl x y
 theorem C36_bit_count_range (x : Int) : 0 ≤ bitCount x ∧ bitCount x ≤ 64 := by
@@ -235,10 +276,110 @@ theorem C36_repeat_length (s : List Char) (n : Nat) : (repeatS s n).length = n *
 theorem C36_lpad (s pad r : List Char) (size : Int) (h : lpadS s size pad = some r) :
     (r.length : Int) = size ∧ ((s.length : Int) ≤ size → s <:+ r) :=
   ⟨lpad_length s pad size r h, lpad_suffix s pad size r h⟩
+/-- `replace` with an empty search string inserts the replacement before every character and at the end;
+    a string that does not contain the first character of the pattern is unchanged. -/
+theorem C36_replace (s rep ps : List Char) (p : Char) :
+    (replaceS s [] rep).length = s.length + (s.length + 1) * rep.length ∧ (p ∉ s → replaceS s (p :: ps) rep = s) := by
+  refine ⟨replace_empty_length s rep, fun h => ?_⟩
+  simp only [replaceS, List.isEmpty_cons, Bool.false_eq_true, if_false]
+  exact replaceGo_no_head p ps rep s h
+/-- `strpos` / `position`: the empty string is found at 1; an occurrence is found at or before the one exhibited;
+    the answer is 0 or a valid 1-based position. -/
+theorem C36_strpos (pre pat post s : List Char) :
+    strpos s [] = 1 ∧ (0 < strpos (pre ++ pat ++ post) pat ∧ strpos (pre ++ pat ++ post) pat ≤ pre.length + 1) ∧
+    (strpos s pat = 0 ∨ (1 ≤ strpos s pat ∧ strpos s pat ≤ s.length + 1)) := by
+  refine ⟨strpos_empty s, strpos_found pre pat post, ?_⟩
+  unfold strpos
+  rcases findAt_bounds pat s 1 with h | h
+  · left; simp [h]
+  · right; omega
+/-- `translate` with an empty `from` is the identity and never lengthens the string. -/
+theorem C36_translate (s frm to : List Char) : translateS s [] to = s ∧ (translateS s frm to).length ≤ s.length :=
+  ⟨translate_nil_from s to, translate_length_le s frm to⟩
+/-- `codepoint(chr(n)) = n` and `chr(codepoint(c)) = c`. -/
+theorem C36_chr_codepoint (n : Int) (s : List Char) (c : Char) :
+    (chrS n = some s → codepointS s = some n) ∧ chrS (c.toNat : Int) = some [c] :=
+  ⟨codepoint_chr n s, chr_codepoint c⟩
+/-- `hamming_distance` on equal-length strings is a metric bounded by the length. -/
+theorem C36_hamming_metric (a b c : List Char) (h1 : a.length = b.length) (h2 : b.length = c.length) :
+    hammingGo a b = hammingGo b a ∧ hammingGo a a = 0 ∧ (hammingGo a b = 0 → a = b) ∧
+    hammingGo a c ≤ hammingGo a b + hammingGo b c ∧ hammingGo a b ≤ a.length :=
+  ⟨hammingGo_comm a b, hammingGo_self a, hammingGo_eq_zero a b h1, hammingGo_triangle a b c h1 h2, hammingGo_le a b⟩
+/-- `levenshtein_distance` is a metric on ALL strings (identity, symmetry, triangle inequality), bounded by the longer
+    length and bounded below by the difference of the lengths. -/
+theorem C36_levenshtein_metric (s t u : List Char) :
+    lev s s = 0 ∧ (lev s t = 0 → s = t) ∧ lev s t = lev t s ∧ lev s u ≤ lev s t + lev t u ∧
+    lev s t ≤ max s.length t.length ∧ s.length - t.length ≤ lev s t ∧ t.length - s.length ≤ lev s t :=
+  ⟨lev_self s, lev_eq_zero s t, lev_comm s t, lev_triangle s t u, lev_le_max s t, (lev_ge_diff s t).1, (lev_ge_diff s t).2⟩
+/-- `luhn_check` accepts every digit string completed with its Luhn check digit. -/
+theorem C36_luhn_check_generated (body : List Nat) (hb : ∀ d ∈ body, d < 10) :
+    luhnCheck ((body ++ [luhnDigit body]).map (fun d => Char.ofNat (48 + d))) = some true := luhnCheck_generated body hb
 
-/-! ## encodings -/
-/-- `from_hex ∘ to_hex = id` for ALL byte strings. -/
+/-! ## encodings: round trips for ALL byte strings / ALL strings -/
 theorem C36_from_hex_to_hex (b : List UInt8) : fromHex (toHex b) = some b := fromHex_toHex b
 theorem C36_to_hex_length (b : List UInt8) : (toHex b).length = 2 * b.length := toHex_length b
+theorem C36_from_base64_to_base64 (b : List UInt8) : base64.decode (base64.encode b) = some b := Codec.decode_encode _ base64_ok b
+theorem C36_from_base64url_to_base64url (b : List UInt8) : base64url.decode (base64url.encode b) = some b :=
+  Codec.decode_encode _ base64url_ok b
+theorem C36_from_base32_to_base32 (b : List UInt8) : base32.decode (base32.encode b) = some b := Codec.decode_encode _ base32_ok b
+theorem C36_big_endian_64_roundtrip (x : Int) (hx : inI64 x = true) : fromBigEndian 8 (toBigEndian 8 x) = some x :=
+  fromBigEndian64_toBigEndian64 x hx
+theorem C36_big_endian_32_roundtrip (x : Int) (hx : -2147483648 ≤ x ∧ x ≤ 2147483647) : fromBigEndian 4 (toBigEndian 4 x) = some x :=
+  fromBigEndian32_toBigEndian32 x hx
+theorem C36_to_big_endian_length (w : Nat) (x : Int) : (toBigEndian w x).length = w := by simp [toBigEndian, beBytes_length]
+/-- UTF-8: `from_utf8(to_utf8(s)) = s` for every string. -/
+theorem C36_from_utf8_to_utf8 (s : List Char) : IQE.Utf8.decode (IQE.Utf8.encode s) = some s := IQE.Utf8.decode_encode s
+/-- `url_decode(url_encode(s)) = s` for every string (bytes first, then UTF-8). -/
+theorem C36_url_decode_url_encode (s : List Char) : urlDecode (urlEncode s) = some s := by
+  unfold urlDecode; rw [urlDecodeBytes_urlEncode]; exact IQE.Utf8.decode_encode s
+
+/-! ## dates on the proleptic Gregorian calendar -/
+/-- `days_from_civil ∘ civil_from_days = id` on EVERY day number … -/
+theorem C36_days_of_civil_of_days (z : Int) : daysOfCivil (yearOf z) (monthOf z) (dayOf z) = z := days_of_civil_of_days z
+/-- … and `civil_from_days ∘ days_from_civil = id` on every valid civil date. -/
+theorem C36_civil_of_days_of_civil (y m d : Int) (hv : validCivil y m d) : civilOfDays (daysOfCivil y m d) = (y, m, d) :=
+  civil_of_days_of_civil y m d hv
+/-- `year`/`month`/`day` of any day number form a valid date: month in 1..12, day in 1..length of the month (leap years included). -/
+theorem C36_year_month_day_valid (z : Int) : validCivil (yearOf z) (monthOf z) (dayOf z) := civilOfDays_valid z
+theorem C36_quarter_range (z : Int) : 1 ≤ quarterOf z ∧ quarterOf z ≤ 4 := by
+  obtain ⟨h1, h2, _, _⟩ := civilOfDays_valid z
+  unfold quarterOf; omega
+/-- `day_of_week`: ISO numbering 1..7, periodic with period 7, advancing by one per day; 1970-01-01 is a Thursday. -/
+theorem C36_day_of_week (z : Int) :
+    1 ≤ dayOfWeek z ∧ dayOfWeek z ≤ 7 ∧ dayOfWeek (z + 7) = dayOfWeek z ∧ dayOfWeek (z + 1) = dayOfWeek z % 7 + 1 ∧ dayOfWeek 0 = 4 :=
+  ⟨(dayOfWeek_range z).1, (dayOfWeek_range z).2, dayOfWeek_period z, dayOfWeek_succ z, dayOfWeek_epoch⟩
+/-- `day_of_year` is the 1-based offset from January 1st of the same year. -/
+theorem C36_day_of_year (z : Int) : z = daysOfCivil (yearOf z) 1 1 + (dayOfYear z - 1) := by unfold dayOfYear; omega
+/-- `last_day_of_month`: not before the date, same year and month, and its day is the length of the month. -/
+theorem C36_last_day_of_month (z : Int) :
+    z ≤ lastDayOfMonth z ∧ yearOf (lastDayOfMonth z) = yearOf z ∧ monthOf (lastDayOfMonth z) = monthOf z ∧
+    dayOf (lastDayOfMonth z) = daysInMonth (yearOf z) (monthOf z) := lastDayOfMonth_spec z
+/-- `date_trunc`: 'month' gives day 1 of the same month, not after the date, idempotent; 'week' gives the Monday at most 6 days back. -/
+theorem C36_date_trunc (z : Int) :
+    (dateTrunc .month z ≤ z ∧ dayOf (dateTrunc .month z) = 1 ∧ monthOf (dateTrunc .month z) = monthOf z ∧
+      yearOf (dateTrunc .month z) = yearOf z ∧ dateTrunc .month (dateTrunc .month z) = dateTrunc .month z) ∧
+    (dayOfWeek (dateTrunc .week z) = 1 ∧ dateTrunc .week z ≤ z ∧ z - dateTrunc .week z ≤ 6) ∧ dateTrunc .day z = z :=
+  ⟨dateTrunc_month z, dateTrunc_week z, rfl⟩
+/-- `date_diff(u, d, date_add(u, n, d)) = n` for days and weeks; adding zero of any unit changes nothing. -/
+theorem C36_date_add_diff (n z : Int) (u : DUnit) :
+    dateDiff .day z (dateAdd .day n z) = n ∧ dateDiff .week z (dateAdd .week n z) = n ∧ dateAdd u 0 z = z :=
+  ⟨date_add_diff_day n z, date_add_diff_week n z, date_add_zero u z (civilOfDays_valid z)⟩
+
+/-! ## kernel-checked witnesses: the documented value on each known finding's witness input (the engine returns something else) -/
+example : absI i64Min = none := by decide                                                             -- F1: engine panics
+example : lengthS ['h', 'é', 'l', 'l', 'o'] = 5 ∧ IQE.Engine.FnDev.byteLen ['h', 'é', 'l', 'l', 'o'] = 6 := by decide   -- F2
+example : strpos ['h', 'é', 'l', 'l', 'o'] ['l'] = 3 ∧ IQE.Engine.FnDev.findByte ['l'] ['h', 'é', 'l', 'l', 'o'] 0 = some 3 := by decide  -- F3 (engine 3+1)
+example : substr ['h', 'e', 'l', 'l', 'o'] (-2) none = ['l', 'o'] := by decide                         -- F5: engine ''
+example : widthBucket 29 0 100 100 = some 30 := by decide                                              -- F7: engine 29
+example : splitPart ['a', ',', 'b'] [','] 3 = .val .null := by decide                                   -- F9: engine ''
+example : hamming ['é'] ['a'] = some 1 ∧ IQE.Engine.FnDev.hammingE ['é'] ['a'] = .val .null := by decide    -- F11
+example : caseSimple [.int 1, .int 1, .int 10, .int 30] = some (.int 10) := by decide                  -- F12 (fixed by 2eee94c): the engine used to raise
+example : dayOfWeek 0 = 4 := by decide                                                                 -- F14: engine 5
+example : dateDiff .month 30 31 = 0 := by decide                                                       -- F15: engine 1
+example : shiftLeft 1 64 = some 0 := by decide                                                         -- F16: engine panics
+example : toBase 35 36 = some ['z'] := by decide                                                       -- F18: engine '35'
+example : translateS ['a', 'b', 'c'] ['b'] [] = ['a', 'c'] := by decide                                 -- F19: engine 'abc'
+example : dateAdd .quarter 1 0 = 90 := by decide                                                       -- F21: engine NULL
+example : chrS 4294967361 = none := by decide                                                          -- F23: engine 'A'
 
 end IQE.Props.C36
